@@ -188,6 +188,11 @@ func ProtoMonitor(sc *Scenario, w *World, x *Exec) []Violation {
 					}
 					switch fr := m.Frame.(type) {
 					case *tunnelpb.ServerToClient_ResponseHeaders:
+						if st.closes > 0 {
+							// "a message with the close_stream field concludes the stream": whoever
+							// ended it, response headers cannot follow the close frame
+							bad("headers-before-close", "s2c:headers-after-close", fmt.Sprintf("%s: id %d: response_headers emitted after the stream's close frame", ms.Name, m.StreamId))
+						}
 						st.headers++
 						if st.headers > 1 {
 							bad("headers-at-most-once", "s2c:second-headers", fmt.Sprintf("%s: id %d", ms.Name, m.StreamId))
